@@ -228,7 +228,8 @@ def select_rule(P, chk):
         trues = [bb2 for bb2, v, rv in q.ok_err_assignments(x) if v == "other" and rv.get("k") == "use" and rv["op"].get("int") == 1]
         if not somes and x.key != SEL:
             rs0 = prov(x, {"l": 0, "p": []})
-            oks = bool(rs0) and all(r.kind == "call" and r.site == bb for r in rs0) or \
+            oks = bool(rs0) and any(r.kind == "call" and r.site == bb for r in rs0) and \
+                all((r.kind == "call" and r.site == bb) or (r.kind == "const" and str(r.name).replace("const ", "") == "false") for r in rs0) or \
                 (bool(trues) and all(any(ct is t and lab is True for cn, lab, ct in q.guard_calls(x, s)) for s in trues))
         ok = okh and okn and oks
         detail = "file path is the haystack=%s, document path the needle=%s, kept only when contained=%s" % (okh, okn, oks)
@@ -296,7 +297,8 @@ def select_rule(P, chk):
     detail = "the sorted documents are consumed by %s" % [f[2] for f in folds]
     if ok:
         fbb, ft, m = folds[0]
-        names = [short(n) for cn, r in q.chains(b, ft["args"][0]) for n in cn]
+        # between the sorted vector and the fold (what selected the documents before the collect is rule (a)'s matter)
+        names = [short(n) for cn, r in q.chains(b, ft["args"][0], stop=lambda r: r.kind == "call" and r.site == cbb) for n in cn]
         bad = set(names) & {"rev", "skip", "take", "step_by", "filter", "skip_while", "take_while", "peekable", "chain"}
         ok = not bad and (sbb is None or b.must_pass_block(fbb, sbb))
         detail = "fold input goes through %s / is not preceded by the sort" % sorted(bad)
